@@ -1,2 +1,3 @@
 pub mod bgp;
 pub mod pb;
+pub mod mon;
